@@ -1,4 +1,99 @@
-From Coq Require Import List ZArith.
+(* props/C50.v — property theorems for C50 (backfilled blocks contain exactly the input samples).
+   Model: model/Backfill.v (promtool's getMinAndMaxTimestamps, getCompatibleBlockDuration,
+   createBlocks, backfill, and the per-block Commit of the BlockWriter's head).  Statements only;
+   proofs are in proof/BackfillProofs.v.
+
+   Vocabulary (model/Backfill.v): an input is the list of entries the OpenMetrics parser yields;
+   [well_formed] = no line without timestamp and no parse error; [in_range] = |ts| <= 2^62 (the
+   domain on which the code's int64 arithmetic cannot wrap); [ordered d] = inside one series and
+   one block window of duration d, later lines carry later timestamps or repeat a line exactly
+   ("one sample per series and timestamp"; out-of-order lines are not valid OpenMetrics). *)
+From Coq Require Import List ZArith Sorting.Sorted.
 From Verif Require Import lib.Int64 model.Backfill proof.BackfillProofs.
 Import ListNotations.
 Open Scope Z_scope.
+
+(* The union of the blocks' samples is exactly the set of input samples — same series, same
+   timestamp, same value bits — and no (series, timestamp) is stored twice, in one block or in
+   two; in particular the run succeeds. For every --max-block-duration and every input. *)
+Theorem C50_partition : forall mx input,
+  well_formed input -> in_range input ->
+  (forall d, compatible_block_duration mx = Some d -> ordered d (samples_of input)) ->
+  exists bl, backfill mx input = BFOk bl /\
+    (forall s t v, In (s, t, v) (all_samples bl) <-> In (ESample s (Some t) v) input) /\
+    NoDup (map key (all_samples bl)).
+Proof. exact partition. Qed.
+
+(* Whatever the order of the lines: nothing is invented and nothing is stored twice. *)
+Theorem C50_sound : forall mx input bl, in_range input -> backfill mx input = BFOk bl ->
+  (forall s t v, In (s, t, v) (all_samples bl) -> In (ESample s (Some t) v) input) /\
+  NoDup (map key (all_samples bl)).
+Proof. exact sound. Qed.
+
+(* The chosen duration d is the largest of 2h * 3^i (i < 10) not above the requested maximum
+   (2h if the maximum is smaller); every block was written for a window [d*k, d*k + d), is not
+   empty, holds only samples of that window, its meta range [mint, maxt) lies inside the window
+   and covers its samples; the windows of the blocks are pairwise different (increasing). *)
+Theorem C50_aligned : forall mx input bl, in_range input -> backfill mx input = BFOk bl ->
+  exists d, compatible_block_duration mx = Some d /\ In d block_ranges /\
+    (default_block_duration <= mx -> d <= mx) /\
+    (forall r, In r block_ranges -> r <= mx -> r <= d) /\
+    Forall (fun b =>
+      (exists k, b_lo b = d * k) /\ b_samples b <> [] /\
+      (forall x, In x (b_samples b) -> b_lo b <= s_ts x < b_lo b + d) /\
+      b_lo b <= b_mint b /\ b_mint b < b_maxt b /\ b_maxt b <= b_lo b + d /\
+      (forall x, In x (b_samples b) -> b_mint b <= s_ts x < b_maxt b)) bl /\
+    StronglySorted Z.lt (map b_lo bl).
+Proof. exact aligned. Qed.
+
+(* An input with a line without timestamp (or one the parser rejects) is rejected as a whole:
+   the result carries no block (createBlocks is never entered) ... *)
+Theorem C50_reject_without_ts : forall mx input,
+  (exists s v, In (ESample s None v) input) \/ In EParseErr input ->
+  exists e, backfill mx input = BFRejected e.
+Proof. exact backfill_rejects. Qed.
+
+(* ... and nothing else is rejected; there is no third outcome (no panic on ranges[idx], no
+   error after some blocks were written). *)
+Theorem C50_total : forall mx input,
+  (exists e, backfill mx input = BFRejected e /\ ~ well_formed input) \/
+  (exists bl, backfill mx input = BFOk bl /\ well_formed input).
+Proof. exact backfill_total. Qed.
+
+(* The code before "fix: promtool: backfill drops samples with negative timestamps" (first
+   block start = d * (mint / d) with Go's truncating division) violated C50_partition. *)
+Theorem C50_partition_old_refuted : exists mx input,
+  well_formed input /\ in_range input /\
+  (forall d, compatible_block_duration mx = Some d -> ordered d (samples_of input)) /\
+  exists bl, backfill_old mx input = BFOk bl /\
+    exists s t v, In (ESample s (Some t) v) input /\ ~ In (s, t, v) (all_samples bl).
+Proof. exact partition_old_refuted. Qed.
+
+(* The ordering hypothesis of C50_partition cannot be dropped: lines of one series that go back
+   in time inside one block window are dropped by the head's Commit without an error. *)
+Theorem C50_partition_unordered_refuted : exists mx input,
+  well_formed input /\ in_range input /\
+  exists bl, backfill mx input = BFOk bl /\
+    exists s t v, In (ESample s (Some t) v) input /\ ~ In (s, t, v) (all_samples bl).
+Proof. exact partition_unordered_refuted. Qed.
+
+(* Non-vacuity: an input with two interleaved series, negative timestamps, samples exactly on
+   block boundaries, an exact repetition and a gap of empty windows meets the hypotheses of
+   C50_partition; the model writes four blocks for it. *)
+Example C50_nonvacuous : well_formed ex_input /\ in_range ex_input /\
+  (forall d, compatible_block_duration 0 = Some d -> ordered d (samples_of ex_input)) /\
+  backfill 0 ex_input = BFOk
+    [mkBlock (-14400000) [(0, -7200001, 11)];
+     mkBlock (-7200000) [(1, -1, 12); (0, -7200000, 13)];
+     mkBlock 0 [(1, 0, 14); (0, 7199999, 15)];
+     mkBlock 50400000 [(1, 50400000, 16)]].
+Proof. exact ex_input_ok. Qed.
+
+Example C50_reject_nonvacuous :
+  backfill 0 [ESample 0 (Some 5) 1; ESample 1 None 2; ESample 0 (Some 7200005) 3] = BFRejected RejNoTs.
+Proof. exact reject_example. Qed.
+
+(* the input of C50_partition_old_refuted under the tree's version *)
+Example C50_old_input_fixed :
+  backfill 0 old_input = BFOk [mkBlock (-7200000) [(0, -1, 7)]; mkBlock 0 [(0, 5, 8)]].
+Proof. exact old_input_fixed. Qed.
